@@ -200,7 +200,7 @@ def _gconds(tier, seed):
 FAMILIES = [
     Family('bucket', body_bucket, ['n', 'batch_size', 'rate4', 'has_mts', 'has_exp', 'has_mbe', 'drop', 'sort'], LP + [('mts', 'int'), ('exp', 'int'), ('mbe', 'int')], _conds,
            pre=lambda sel: ['l0 >= 1 and l1 >= 1 and l2 >= 1 and l3 >= 1 and l4 >= 1', 'mts >= 1 and exp >= 1 and mbe >= 1'],
-           timeout=dict(quick=90, thorough=900), desc='DynamicTimeSeriesBucket: conservation, size, padding, max_total_size, expiration, max_buffered_examples, drop mode, sort'),
-    Family('generic', body_generic, ['n', 'batch_size', 'has_exp', 'has_mbe', 'drop'], LP + [('exp', 'int'), ('mbe', 'int')], _gconds, timeout=dict(quick=90, thorough=600),
+           timeout=dict(quick=240, thorough=900), desc='DynamicTimeSeriesBucket: conservation, size, padding, max_total_size, expiration, max_buffered_examples, drop mode, sort'),
+    Family('generic', body_generic, ['n', 'batch_size', 'has_exp', 'has_mbe', 'drop'], LP + [('exp', 'int'), ('mbe', 'int')], _gconds, timeout=dict(quick=240, thorough=600),
            desc='DynamicBucketDataset.__iter__ with an integer-only bucket class'),
 ]
